@@ -266,6 +266,16 @@ def extract_weights(
     return weights_array
 
 
+def _widen_integer_weights(weights: np.ndarray) -> np.ndarray:
+    """Integer weights of a narrow type as int64.
+
+    Their sums and squares would wrap around in their own type (100**2 == 16 in int8).
+    """
+    if weights.dtype.kind in "iu" and weights.dtype.itemsize < 8:
+        return weights.astype(np.int64)
+    return weights
+
+
 @overload
 def calculate_nd_frequencies(
     data: np.ndarray,
@@ -330,6 +340,7 @@ def calculate_nd_frequencies(
         if not dtype:
             dtype = np.int64
     else:
+        weights = _widen_integer_weights(weights)
         if data is None:
             raise ValueError("Weights specified but data not.")
         if data.shape[0] != weights.shape[0]:
@@ -428,7 +439,7 @@ def calculate_1d_frequencies(
     # Prepare 1D numpy array of weights
     if weights is not None:
         # TODO: It should be an array already
-        weights_array = weights
+        weights_array = _widen_integer_weights(weights)
         if weights_array.ndim > 1:
             weights_array = weights_array.flatten()
 
